@@ -30,6 +30,7 @@ type Run struct {
 	steps       int
 	forks       int
 	ifconv      int
+	forbidGlobalWrites bool
 	varCache    map[int]map[int]bool
 	noSlicing   bool
 	fnUsed      map[string]bool
@@ -152,7 +153,11 @@ func (r *Run) noteGlobalWrite(p *Path, o *Object) {
 	if r.globalWrites == nil {
 		r.globalWrites = map[string]bool{}
 	}
-	r.globalWrites[o.Name+" @ "+p.where()] = true
+	site := p.where()
+	r.globalWrites[o.Name+" @ "+site] = true
+	if r.forbidGlobalWrites && !strings.Contains(site, "zz_verif_") {
+		r.recordViolation(p, "library code writes package-level state: "+o.Name, "assert", site)
+	}
 }
 
 func NewRun(in *Interp, capMs int, stats *SolverStats) *Run {
